@@ -142,7 +142,16 @@ impl<'r> Gen<'r> {
         }
     }
     fn lit(&mut self) -> u32 {
-        self.rng.word()
+        // a quarter of the literals are values with a meaning in some number format (zeros, sign bits, infinities,
+        // NaNs and subnormal edges of binary16 / binary32, all ones, powers of two)
+        if self.rng.chance(1, 4) {
+            *self.rng.pick(&[
+                0u32, 1, 2, 0x7f, 0x80, 0xff, 0x100, 0x3ff, 0x400, 0x7bff, 0x7c00, 0x7c01, 0x7e00, 0x7fff, 0x8000, 0x8001, 0xfbff, 0xfc00, 0xffff, 0x1_0000, 0x3c00, 0x3f80_0000, 0x7f7f_ffff,
+                0x7f80_0000, 0x7fc0_0000, 0x7fff_ffff, 0x8000_0000, 0x8000_0001, 0xff80_0000, 0xffff_ffff, 0x007f_ffff, 0x0080_0000,
+            ])
+        } else {
+            self.rng.word()
+        }
     }
 
     fn gen_variant(&mut self, k: KindId, ops: &mut Vec<MOp>) {
@@ -191,7 +200,11 @@ impl<'r> Gen<'r> {
         let s = snap();
         match self.tctx.width_of(type_id) {
             Width::Two => {
-                let v = ((self.rng.word() as u64) << 32) | self.rng.word() as u64;
+                let v = if self.rng.chance(1, 4) {
+                    *self.rng.pick(&[0u64, 1, 0x8000_0000, 0xffff_ffff, 0x1_0000_0000, 0x7ff0_0000_0000_0000, 0x7ff8_0000_0000_0000, 0x8000_0000_0000_0000, 0x7fff_ffff_ffff_ffff, 0xffff_ffff_ffff_ffff, 0x0010_0000_0000_0000, 0x3ff0_0000_0000_0000])
+                } else {
+                    ((self.rng.word() as u64) << 32) | self.rng.word() as u64
+                };
                 ops.push(MOp::L64(v));
             }
             // One, and (never chosen by the producer itself) Unsupported / Poisoned
@@ -360,6 +373,12 @@ impl<'r> Gen<'r> {
                 groups[1].items[0][0] = MOp::W(s.k_lit32, sg);
             }
         }
+        if g.name == "SourceExtension" && self.rng.chance(1, 2) {
+            // source-language extension names as front ends write them
+            let n = self.rng.pick(&["GL_GOOGLE_include_directive", "GL_GOOGLE_cpp_style_line_directive", "GL_ARB_separate_shader_objects", "GL_ARB_shading_language_420pack", "GL_EXT_nonuniform_qualifier", "GL_KHR_shader_subgroup_basic", "GL_EXT_scalar_block_layout", "GL_GOOGLE_"]).to_string();
+            ops[0] = MOp::S(n.clone());
+            groups[0].items[0][0] = MOp::S(n);
+        }
         if g.name == "Extension" && self.rng.chance(1, 2) {
             // a registered extension name (code that special-cases particular extensions keys on these)
             let names = crate::snapshot::extension_names();
@@ -513,7 +532,13 @@ pub fn gen_stream(rng: &mut Rng, cfg: ProdCfg) -> Stream {
             for _ in 0..g.rng.below(5) {
                 // opcode 0 (OpNop) is the lower boundary of the opcode space: common instead of 1-in-500
                 let op = if g.rng.chance(1, 12) { s.op("Nop") } else { *g.rng.pick(&body_pool) };
-                insts.push(g.inst(op));
+                let i = g.inst(op);
+                // an instruction without a result id now and then appears twice in a row (two stores, two lines, ...)
+                let twice = i.rid.is_none() && g.rng.chance(1, 10);
+                if twice {
+                    insts.push(i.clone());
+                }
+                insts.push(i);
             }
             // structured control flow: a merge instruction right in front of the terminator
             if g.rng.chance(1, 5) {
